@@ -61,6 +61,9 @@ func runC16(c *fw.Ctx) {
 	for i := 0; i < c.Pick(300, 3000); i++ {
 		c.Case(func(k *fw.K) { c16SharedInitializer(k) })
 	}
+	for i := 0; i < c.Pick(600, 6000); i++ {
+		c.Case(func(k *fw.K) { c16Accumulate(k) })
+	}
 }
 
 func c16History(k *fw.K, B, D, O int) {
@@ -101,14 +104,20 @@ func c16History(k *fw.K, B, D, O int) {
 		ptrs()
 	}
 	curW, curB := w, b
+	// half of the histories call Forward through a method value bound ONCE, before any replacement
+	fwd := fc.Forward
+	bound := k.Rng.Intn(2) == 0
+	if !bound {
+		fwd = func(xs ...tensor.Tensor) (tensor.Tensor, error) { return fc.Forward(xs...) }
+	}
 	forward := func(tag string, track bool) (x *ref.T, rx, ry tensor.Tensor, ok bool) {
 		if B <= 6 && k.Rng.Intn(3) == 0 && tag != "Forward before back-propagation" {
 			B = 1 + k.Rng.Intn(6) // the same layer sees batches of different sizes
 		}
 		x = Shuffled(k.Rng, Unique(k.Rng, []int{B, D}, 0.2, 2))
 		rx = rt.MustLeaf(x, track)
-		if p := call(func() { ry, err = fc.Forward(rx) }); p != nil || err != nil || ry == nil {
-			k.Failf("%s: Forward failed: panic=%v err=%v", tag, p, err)
+		if p := call(func() { ry, err = fwd(rx) }); p != nil || err != nil || ry == nil {
+			k.Failf("%s: Forward (method value bound before the replacements: %v) failed: panic=%v err=%v", tag, bound, p, err)
 			return nil, nil, nil, false
 		}
 		want, _ := ref.FC(x, curW, curB)
@@ -341,6 +350,68 @@ func c16SharedInitializer(k *fw.K) {
 			}
 			if e := gradClose(got, want[1+i]); e != nil {
 				k.Failf("layer %d: gradient of %s differs from its own derivative (a gradient belonging to another parameter leaked in?): %v", li+1, name, e)
+				return
+			}
+		}
+	}
+}
+
+// c16Accumulate: several Forward calls on one layer, all made BEFORE the first BackPropagate, then one
+// back-propagation per output (micro-batch accumulation): W and B must end with the sum of the shares.
+func c16Accumulate(k *fw.K) {
+	D, O := 1+k.Rng.Intn(4), 1+k.Rng.Intn(4)
+	n := 2 + k.Rng.Intn(3)
+	w, b := Shuffled(k.Rng, Unique(k.Rng, []int{O}, 0.2, 2)), Shuffled(k.Rng, Unique(k.Rng, []int{O}, 0.2, 2))
+	k.Case = map[string]any{"scenario": "n Forward calls, then n BackPropagate calls (gradient accumulation)", "inputs": D, "outputs": O, "n": n, "W": w.Data, "B": b.Data}
+	k.Key("accumulate/%d/%d/%d", D, O, n)
+	k.Count("accumulation_cases", 1)
+	fc, err := layers.NewFC(&layers.FCConfig{Inputs: D, Outputs: O, Initializers: map[string]layers.Initializer{"Weight": fixedInit{w}, "Bias": fixedInit{b}}})
+	if err != nil {
+		k.Failf("NewFC: %v", err)
+		return
+	}
+	var ys []tensor.Tensor
+	var xs, gs []*ref.T
+	for i := 0; i < n; i++ {
+		x := Shuffled(k.Rng, Unique(k.Rng, []int{1, D}, 0.2, 2)) // batch 1: no expansion, exact
+		g := randG(k, []int{1, O})
+		var y tensor.Tensor
+		if p := call(func() {
+			y, err = fc.Forward(rt.MustLeaf(x, false))
+			if err == nil {
+				y, err = y.Mul(rt.MustLeaf(g, false))
+			}
+		}); p != nil || err != nil {
+			k.Failf("Forward %d: panic=%v err=%v", i, p, err)
+			return
+		}
+		ys, xs, gs = append(ys, y), append(xs, x), append(gs, g)
+	}
+	wantW, wantB := ref.Zeros([]int{O}), ref.Zeros([]int{O})
+	for i := range ys {
+		if p := call(func() { err = tensor.BackPropagate(ys[i]) }); p != nil || err != nil {
+			k.Failf("BackPropagate %d of %d: panic=%v err=%v", i+1, n, p, err)
+			return
+		}
+		yv, _ := ref.FC(xs[i], w, b)
+		v := ref.VJP(ref.Instr{Op: "fc"}, []*ref.T{xs[i], w, b}, yv, gs[i], ref.RuleSum)
+		for o := 0; o < O; o++ {
+			wantW.Data[o] += v[1].Data[o]
+			wantB.Data[o] += v[2].Data[o]
+		}
+		for pi, want := range []*ref.T{wantW, wantB} {
+			gr := (*fc.Weights()[pi].Value).Gradient()
+			if gr == nil {
+				k.Failf("after back-propagation %d of %d: parameter %d has no gradient", i+1, n, pi)
+				return
+			}
+			got, err := rt.Read(gr)
+			if err != nil {
+				k.Failf("gradient unreadable: %v", err)
+				return
+			}
+			if e := gradClose(got, want); e != nil {
+				k.Failf("after back-propagation %d of %d graphs that were all built beforehand: gradient of %s is not the sum of the shares: %v", i+1, n, []string{"Weight", "Bias"}[pi], e)
 				return
 			}
 		}
